@@ -223,8 +223,9 @@ Definition rejected_input_keeps_state_statement : Prop :=
      parse_query sem (parse_fuel q) q = Err x ->
      exists err, sys_query sy name c e sem q = (sy, Err err)) /\
   (* reads (get, search, find-rules), whatever they answer — an error of the
-     matcher on a malformed pattern included *)
-  (forall s now, no_expired s now ->
+     matcher on a malformed pattern included (no purge pending: the list of
+     noted ids is empty between any two operations) *)
+  (forall s now, no_expired s now -> st_pending s = [] ->
      (forall id, fst (st_get s id now) = s) /\
      (forall p, fst (st_search s p now) = s) /\
      (forall ev, fst (st_find_rules s ev now) = s)).
